@@ -34,6 +34,9 @@ const (
 	KSlot
 	KFlush
 	KJoin
+	KAttr      // <i title={ it.F() }></i>
+	KScriptOut // <script>var x = {{ it.F() }}</script>
+	KScriptIn  // <script>var y = "{{ it.F() }}"</script>
 )
 
 // Item is one op of a program, as the generated template sees it.
@@ -137,6 +140,24 @@ func Build(prog []Op, rs *RenderState) ([]Item, error) {
 					rs.Cancel()
 				}
 				return text, nil
+			}})
+		case "X":
+			// an expression of another kind (attribute / script outside / inside a string literal); its value is "A"
+			kind, ok := map[int]int{1: KAttr, 2: KScriptOut, 3: KScriptIn}[o.N]
+			if !ok {
+				return nil, fmt.Errorf("no expression kind %d in interp.templ", o.N)
+			}
+			items = append(items, Item{Kind: kind, Fn: func() (string, error) {
+				rs.Evals++
+				if rs.Plan.L.K == "expr" && rs.Plan.L.J == rs.Evals {
+					rs.ExprErr = true
+					return "", ErrExpr
+				}
+				if rs.Plan.L.K == "cancelat" && rs.Plan.L.J == rs.Evals && rs.Cancel != nil {
+					rs.CancelFired = true
+					rs.Cancel()
+				}
+				return "A", nil
 			}})
 		case "leaf":
 			if o.N < 1 || o.N > len(leafText) {
@@ -313,13 +334,19 @@ func Classify(err error) string {
 //go:embed interp.templ
 var templSource string
 
+// OtherExprLines: the lines of all single-line expressions of interp.templ (text, attribute, script).
+var OtherExprLines []int
+
 // ExprLines returns, for the single-line and the multi-line expression of interp.templ, the
 // first and last source line (1-based) of the Go expression.
 func ExprLines() (single [2]int, multi [2]int, err error) {
 	lines := strings.Split(templSource, "\n")
 	for i, l := range lines {
-		if strings.Contains(l, "{ it.F() }") {
+		if strings.Contains(l, "{ it.F() }") && single[0] == 0 {
 			single = [2]int{i + 1, i + 1}
+		}
+		if strings.Contains(l, "it.F()") {
+			OtherExprLines = append(OtherExprLines, i+1)
 		}
 		if strings.Contains(l, "{ it.G(") {
 			multi[0] = i + 1
